@@ -36,7 +36,14 @@ pub fn jawk_bin() -> Option<String> {
     std::env::var("JAWK_BIN").ok().filter(|p| std::path::Path::new(p).exists())
 }
 
+/// Every fork in this process happens under this lock. The "closed pipe" sink creates a pipe
+/// and closes its read end; a fork of another thread in between would carry the read end into
+/// a child for a moment, the pipe would have a reader, and the write of the jawk under test
+/// would succeed - a race in the harness that was seen once under heavy load.
+static SPAWN_LOCK: std::sync::Mutex<()> = std::sync::Mutex::new(());
+
 pub fn spawn_jawk(bin: &str, args: &[String], input: &[u8], sink: u8) -> Result<ChildOut, String> {
+    let guard = SPAWN_LOCK.lock().unwrap_or_else(|e| e.into_inner());
     let mut cmd = Command::new(bin);
     cmd.args(args).stdin(Stdio::piped()).stderr(Stdio::piped());
     match sink {
@@ -57,6 +64,8 @@ pub fn spawn_jawk(bin: &str, args: &[String], input: &[u8], sink: u8) -> Result<
         }
     }
     let mut child = cmd.spawn().map_err(|e| format!("cannot spawn {}: {}", bin, e))?;
+    drop(cmd); // closes the parent's copy of the write end
+    drop(guard);
     let mut stdin = child.stdin.take().unwrap();
     let data = input.to_vec();
     let w = std::thread::spawn(move || {
@@ -252,9 +261,14 @@ fn run_unreadable(c: &CaseUnreadable) -> CaseResult {
         cmd.arg(&good).arg("/proc/self/mem").stdin(Stdio::null());
         expect_rows = true;
     }
-    let out = match cmd.output() {
-        Ok(o) => o,
-        Err(e) => return CaseResult::Discard(format!("cannot spawn: {}", e)),
+    let out = {
+        let guard = SPAWN_LOCK.lock().unwrap_or_else(|e| e.into_inner());
+        let child = cmd.spawn();
+        drop(guard);
+        match child.and_then(|c| c.wait_with_output()) {
+            Ok(o) => o,
+            Err(e) => return CaseResult::Discard(format!("cannot spawn: {}", e)),
+        }
     };
     let _ = std::fs::remove_file(&good);
     let _ = expect_rows;
